@@ -284,6 +284,9 @@ func runC20(r *drv.Run) drv.Spec {
 	}
 	wg.Wait()
 	c20generated(r, c, plain, base.root, reps)
+	// generated programs of every scenario family through repeated wuffs-c runs
+	runProgs(r, "c20")
+	c20versioned(r, c, plain)
 	return sp
 }
 
@@ -404,4 +407,64 @@ func firstDiffLine(a, b []string) string {
 		}
 	}
 	return fmt.Sprintf("lengths %d vs %d", len(a), len(b))
+}
+
+// c20versioned: a versioned release (`wuffs gen -version=X.Y.Z`) embeds the
+// commit date and count that it asks git for. In a scratch tree that is a git
+// repository whose only commit was made at 23:30 UTC, the release must be the
+// same bytes whatever TZ / LANG / HOME the process inherits (a local-time date
+// would fall on the next or previous calendar day).
+func c20versioned(r *drv.Run, c *c20rec, plain *wgen.Tools) {
+	if _, err := exec.LookPath("git"); err != nil {
+		c.count("versioned_release_skipped_no_git", 1)
+		return
+	}
+	h := filepath.Join(r.Scratch, "versioned")
+	if err := wgen.PopulateRoot(drv.RepoDir, h, "forward"); err != nil {
+		return
+	}
+	git := func(args ...string) error {
+		cmd := exec.Command("git", args...)
+		cmd.Dir = h
+		cmd.Env = append(os.Environ(), "GIT_AUTHOR_DATE=2024-03-10T23:30:00Z", "GIT_COMMITTER_DATE=2024-03-10T23:30:00Z",
+			"GIT_AUTHOR_NAME=v", "GIT_AUTHOR_EMAIL=v@example.invalid", "GIT_COMMITTER_NAME=v", "GIT_COMMITTER_EMAIL=v@example.invalid", "TZ=UTC")
+		_, err := cmd.CombinedOutput()
+		return err
+	}
+	if git("init", "-q") != nil || git("add", "-A") != nil || git("commit", "-q", "-m", "scratch") != nil {
+		c.count("versioned_release_skipped_git_failed", 1)
+		return
+	}
+	var ref []byte
+	refEnv := ""
+	for _, ev := range [][]string{{}, {"TZ=UTC"}, {"TZ=XXX-14"}, {"TZ=XXX+12"}, {"TZ=Pacific/Kiritimati", "LANG=de_DE.UTF-8", "LC_ALL=C"}, {"HOME=/nonexistent", "TZ=America/Los_Angeles"}} {
+		cmd := exec.Command(filepath.Join(plain.Dir, "wuffs"), "gen", "-version=0.4.0", "std/crc32")
+		cmd.Dir = h
+		var env []string
+		for _, e := range plain.Env() {
+			if !strings.HasPrefix(e, "TZ=") {
+				env = append(env, e)
+			}
+		}
+		cmd.Env = append(env, ev...)
+		if out, err := cmd.CombinedOutput(); err != nil {
+			c.count("versioned_release_gen_failed", 1)
+			_ = out
+			return
+		}
+		got, err := os.ReadFile(filepath.Join(h, "release", "c", "wuffs-v0.4.c"))
+		if err != nil {
+			c.count("versioned_release_missing", 1)
+			return
+		}
+		c.class("versioned-release|" + strings.Join(ev, ","))
+		if ref == nil {
+			ref, refEnv = got, strings.Join(ev, ",")
+			continue
+		}
+		if !bytes.Equal(got, ref) {
+			c.viol("nondeterministic:versioned-release:environment", fmt.Sprintf("`wuffs gen -version=0.4.0` of one commit differs between environments [%s] and [%s]: %s", refEnv, strings.Join(ev, ","), wgen.FirstDiff(ref, got)), nil)
+			return
+		}
+	}
 }
